@@ -85,6 +85,9 @@ func runL1(t *testing.T, sc *world.Scenario, attach func(st *stage.Stage, res *c
 			for k, v := range st.W.FaultsFired {
 				res.Faults[k] += v
 			}
+			if n := st.W.DelaysFired(); n > 0 {
+				res.Faults["op.delay"] += n
+			}
 			if st.BootErr != nil {
 				res.Notes["bootErr"] = st.BootErr.Error()
 			}
